@@ -13,8 +13,18 @@ def run(ctx):
                 "dangling, cyclic, self-referential, a link to an ancestor; a linked root; seeded random scenarios forced to -L; both drivers; "
                 "non-trivial = a link to a directory, a chain, or an outside/dangling/cyclic target")
     def nt(sc):
-        return any(e["k"] == "link" for e in sc["fs0"])
-    nsprop.run(ctx, "C13", scs, nontrivial=nt)
+        return sc is None or any(e["k"] == "link" for e in sc["fs0"])
+    # path resolution failing part-way (readlink/stat errors inside canonicalize): exit 0 must still mean "no links"
+    camp = [s for s in scs if s["id"] in ("deref-file-rel-absent", "deref-dir-rel-absent", "deref-chain3-dir-absent", "deref-file-abs-dir")]
+    def extra_runs(binary):
+        obs = []
+        for sc in camp:
+            for d in nsprop.DRIVERS:
+                pts = [(sysc, err, w) for sysc, err in (("readlink", "ENAMETOOLONG"), ("readlink", "EACCES"), ("readlink", "EIO")) for w in range(1, 9 if ctx.tier == "quick" else 25)]
+                obs += nsplane.fault_runs(binary, sc, d, pts, tag="derefault")
+        ctx.notes["resolution_fault_runs"] = len(obs)
+        return obs
+    nsprop.run(ctx, "C13", scs, nontrivial=nt, extra_runs=extra_runs)
 
 def replay(ctx, path):
     nsprop.replay(ctx, "C13", path)
